@@ -1429,27 +1429,34 @@ impl<'ast, 'res> Resolver<'ast, 'res> {
                     self.lookup_var_info(v).map(|(t, _)| t)
                 }
             }
+            // An operator application has a type only for the operand types `check_expr`
+            // accepts (as for the unary operators below): a rejected one has no type, it must
+            // not hand a made-up one to a variable or to a function's return type.
             Expr::Binary { op, lhs, rhs, .. } => {
                 let l = self.infer_expr_type(lhs)?;
                 let r = self.infer_expr_type(rhs)?;
                 match op {
                     BinaryOp::Add => match (l, r) {
-                        (ValueType::String, ..) | (.., ValueType::String) => {
+                        (
+                            ValueType::String,
+                            ValueType::String | ValueType::Number | ValueType::Dynamic,
+                        )
+                        | (ValueType::Number | ValueType::Dynamic, ValueType::String) => {
                             Some(ValueType::String)
                         }
                         (ValueType::Number, ValueType::Number) => Some(ValueType::Number),
                         // A dynamic operand may hold a number or a string at run time, so the
                         // sum may be either: claiming one of them rejects valid programs later.
-                        (ValueType::Dynamic, ..) | (.., ValueType::Dynamic) => {
-                            Some(ValueType::Dynamic)
-                        }
+                        (ValueType::Dynamic, ValueType::Number | ValueType::Dynamic)
+                        | (ValueType::Number, ValueType::Dynamic) => Some(ValueType::Dynamic),
                         _ => None,
                     },
                     BinaryOp::Minus | BinaryOp::Times | BinaryOp::Divide | BinaryOp::Mod => {
                         match (l, r) {
-                            (ValueType::Number, ValueType::Number)
-                            | (ValueType::Dynamic, ..)
-                            | (.., ValueType::Dynamic) => Some(ValueType::Number),
+                            (
+                                ValueType::Number | ValueType::Dynamic,
+                                ValueType::Number | ValueType::Dynamic,
+                            ) => Some(ValueType::Number),
                             _ => None,
                         }
                     }
@@ -1462,9 +1469,10 @@ impl<'ast, 'res> Resolver<'ast, 'res> {
                         _ => None,
                     },
                     BinaryOp::And | BinaryOp::Or => match (l, r) {
-                        (ValueType::Bool, ValueType::Bool)
-                        | (ValueType::Null | ValueType::Dynamic, ..)
-                        | (.., ValueType::Null | ValueType::Dynamic) => Some(ValueType::Bool),
+                        (
+                            ValueType::Bool | ValueType::Null | ValueType::Dynamic,
+                            ValueType::Bool | ValueType::Null | ValueType::Dynamic,
+                        ) => Some(ValueType::Bool),
                         _ => None,
                     },
                 }
